@@ -46,5 +46,14 @@
  */
 int snoopy_output_stdoutoutput (char const * const logMessage, __attribute__((unused)) char const * const arg)
 {
-    return fprintf(stdout, "%s\n", logMessage);
+    int charCount;
+
+    charCount = fprintf(stdout, "%s\n", logMessage);
+
+    // When stdout is a pipe or a file it is fully buffered. A successful exec()
+    // replaces the process image without flushing stdio, so flush it here or the
+    // message never leaves this process.
+    fflush(stdout);
+
+    return charCount;
 }
